@@ -211,6 +211,16 @@ class Rig:
                     except Exception:
                         pass
                 tw.world.op('u', f'abort-{ev[1]}', do, record=False)
+        elif kind == 'requeue':
+            ups = [t for t in self.uploads() if t.username == ev[1]
+                   and t.state.VALUE in (TransferState.State.ABORTED, TransferState.State.FAILED)]
+            if ups:
+                async def do(t=ups[0]):
+                    try:
+                        await tw.client.transfers.queue(t)
+                    except Exception:
+                        pass
+                tw.world.op('u', f'requeue-{ev[1]}', do, record=False)
         elif kind == 'slots':
             tw.client.settings.transfers.limits.upload_slots = ev[1]
             self.slot_log.append((tw.world.now(), ev[1]))
@@ -267,6 +277,14 @@ def histories(tier):
                     if tier != 'quick':
                         for e2 in others:
                             out.append({'slots': slots, 'users': users, 'hist': base + [e, e2]})
+            # one user, two files: the first leaves the active state, the second starts, the first is queued again
+            if slots >= 1:
+                u0 = users[0]
+                for x in (('fail', u0), ('abort', u0), ('done', u0)):
+                    for y in (('q', u0, FILES[0]), ('requeue', u0)):
+                        out.append({'slots': slots, 'users': users, 'hist': [('q', u0, FILES[0]), ('q', u0, FILES[1]), x, y]})
+                        out.append({'slots': slots, 'users': users,
+                                    'hist': [('q', u0, FILES[0]), ('q', u0, FILES[1]), ('q', users[-1], FILES[0]), x, y]})
             # interleaved: queue, event, queue
             for e in others[:6]:
                 out.append({'slots': slots, 'users': users, 'hist': [qs[0], e, qs[1], qs[-1], ('done', users[0])]})
